@@ -592,3 +592,68 @@ N('c06-keywords-explicit-dict', 'C06', LEX,
     if token_type not in _NON_KEYWORDS)""")
 N('c06-try-broader', 'C06', IOPARSER,
   "        except ValueError as ex:", "        except (ValueError, IndexError) as ex:")
+
+# ------------------------------------------------------------------ C07
+B('c07-set-color-duration-raw', 'C07', 'R07.a', LANLIGHT,
+  """        color = param_color(color)
+        duration = param_32(duration)
+        self._impl.set_color(color, duration, True)""",
+  """        color = param_color(color)
+        self._impl.set_color(color, duration, True)""")
+B('c07-set-power-unclamped', 'C07', 'R07.a', LANLIGHT,
+  "        power = param_16(power)\n", "")
+B('c07-zone-color-unclamped', 'C07', 'R07.a', LANLIGHT,
+  "            color = param_color(color)\n            first_zone", "            first_zone")
+B('c07-payload-duration', 'C07', 'R07.a', LANLIGHT,
+  '            "duration": param_32(duration),', '            "duration": duration,')
+B('c07-payload-colors', 'C07', 'R07.a', LANLIGHT,
+  '            "colors": matrix.get_colors(),', '            "colors": matrix.as_list(),')
+N('c07-api-all-lights-clamped-upstream', 'C07', LANAPI,
+  "        self._lifxlan.set_color_all_lights(color, param_32(duration), True)",
+  "        self._lifxlan.set_color_all_lights(color, duration, True)")
+B('c07-param16-65536', 'C07', 'R07.b', PARAMH,
+  "    return round(max(0, min(param, 0xffff)))", "    return round(max(0, min(param, 0x10000)))")
+B('c07-param16-no-round', 'C07', 'R07.b', PARAMH,
+  "    return round(max(0, min(param, 0xffff)))", "    return max(0, min(param, 0xffff))")
+B('c07-param32-no-lower', 'C07', 'R07.b', PARAMH,
+  "    return round(max(0, min(param, 0xffffffff)))", "    return round(min(param, 0xffffffff))")
+B('c07-standardize-upper', 'C07', 'R07.b', MATRIX,
+  "            elif param > 65535.0:\n                param = 65535", "            elif param > 65536.0:\n                param = 65536")
+B('c07-time-raw-100', 'C07', 'R07.c', UNITS,
+  "    return logical_time * 1000.0", "    return logical_time * 100.0")
+B('c07-pct-65536', 'C07', 'R07.c', UNITS,
+  "pct / 100.0 * 65535.0", "pct / 100.0 * 65536.0")
+B('c07-hue-scale', 'C07', 'R07.c', UNITS,
+  "        h = (logical_value % 360.0) / 360.0 * 65535.0", "        h = (logical_value % 360.0) / 365.0 * 65535.0")
+B('c07-hue-no-mod', 'C07', 'R07.c', UNITS,
+  "        h = (logical_value % 360.0) / 360.0 * 65535.0", "        h = logical_value / 360.0 * 65535.0")
+B('c07-raw-to-logical-hue', 'C07', 'R07.c', UNITS,
+  "    h = float(raw_value) / 65535.0 * 360.0", "    h = float(raw_value) / 65536.0 * 360.0")
+B('c07-raw-to-logical-sat', 'C07', 'R07.c', UNITS,
+  "    s = 100.0 if raw_value >= 65535.0 else float(raw_value) / 65535.0 * 100.0",
+  "    s = 100.0 if raw_value >= 65535.0 else float(raw_value) / 65535.0 * 10.0")
+B('c07-rgb-input-scale', 'C07', 'R07.c', UNITS,
+  """    r, g, b = [rgb_color[i] / 100.0 for i in range(0, 3)]
+    h, s, v = colorsys.rgb_to_hsv(r, g, b)
+    return [h * 360.0""",
+  """    r, g, b = [rgb_color[i] / 255.0 for i in range(0, 3)]
+    h, s, v = colorsys.rgb_to_hsv(r, g, b)
+    return [h * 360.0""")
+B('c07-logical-to-rgb-out', 'C07', 'R07.c', UNITS,
+  """    r, g, b = colorsys.hsv_to_rgb(h, s, v)
+    return [r * 100.0, g * 100.0, b * 100.0, logical_color[3]]""",
+  """    r, g, b = colorsys.hsv_to_rgb(h, s, v)
+    return [r * 100.0, g * 10.0, b * 100.0, logical_color[3]]""")
+B('c07-wait-raw-seconds', 'C07', 'R07.c', MACHINE,
+  "                time /= 1000.0", "                time /= 100.0")
+N('c07-hex-to-decimal', 'C07', PARAMH,
+  "    return round(max(0, min(param, 0xffff)))", "    return round(min(65535, max(param, 0)))")
+N('c07-named-constant', 'C07', UNITS,
+  "    return logical_time * 1000.0", "    ms_per_s = 1000.0\n    return ms_per_s * logical_time")
+N('c07-pct-reassociated', 'C07', UNITS,
+  "pct / 100.0 * 65535.0", "pct * (65535.0 / 100.0)")
+N('c07-sanitize-inline', 'C07', LANLIGHT,
+  """        color = param_color(color)
+        duration = param_32(duration)
+        self._impl.set_color(color, duration, True)""",
+  """        self._impl.set_color(param_color(color), param_32(duration), True)""")
